@@ -25,6 +25,8 @@
 EXTENDS Naturals, Sequences, SigGrammar
 
 Leafs == {"u8","bool","i16","u16","i32","u32","i64","u64","f64","string","path","sig","value","duration","ipv4"}
+\* the std atomics declare the signature of the primitive they hold (zvariant/src/type/libstd.rs atomic_impl!)
+AtomLeafs == {"at_bool", "at_u8", "at_i16", "at_u16", "at_i32", "at_u32", "at_i64", "at_u64"}
 RECURSIVE ESig(_), ESigSeq(_)
 ESigSeq(fs) == IF fs = <<>> THEN <<>> ELSE ESig(Head(fs)) \o ESigSeq(Tail(fs))
 ESig(S) ==
@@ -32,6 +34,8 @@ ESig(S) ==
     [] S.c = "i32" -> <<105>> [] S.c = "u32" -> <<117>> [] S.c = "i64" -> <<120>> [] S.c = "u64" -> <<116>>
     [] S.c = "f64" -> <<100>> [] S.c = "string" -> <<115>> [] S.c = "path" -> <<111>> [] S.c = "sig" -> <<103>>
     [] S.c = "value" -> <<118>>
+    [] S.c = "at_bool" -> <<98>> [] S.c = "at_u8" -> <<121>> [] S.c = "at_i16" -> <<110>> [] S.c = "at_u16" -> <<113>>
+    [] S.c = "at_i32" -> <<105>> [] S.c = "at_u32" -> <<117>> [] S.c = "at_i64" -> <<120>> [] S.c = "at_u64" -> <<116>>
     [] S.c = "duration" -> <<40, 116, 117, 41>>                 \* (tu): seconds, nanoseconds
     [] S.c = "ipv4" -> <<40, 121, 121, 121, 121, 41>>             \* (yyyy)
     [] S.c = "vec" -> <<97>> \o ESig(S.e)
